@@ -316,6 +316,7 @@ def install():
 
     models_calls.BYTES_METHOD_HOOKS['join'] = _join_hook
     seqspec.SNOC_LEMMA = True
+    seqspec.COMP_REQUIREMENTS = True
 
 
 install()
